@@ -352,12 +352,27 @@ class SG:
             for _ in range(c.int(1, 4)):
                 v = pool.pop(c.below(len(pool)))
                 vals.append(v)
-            body = ""
-            for v in vals:
-                inner = " ".join(self.stmt(d - 1) for _ in range(c.below(3))) or ";"
-                body += "case %s: %s " % (v, inner)
+            # label runs ('case 1: case 2: default:' share the statements that
+            # follow), empty and long case bodies, default anywhere, statements
+            # before the first label (unreachable but valid)
+            labels = ["case %s:" % v for v in vals]
             if c.chance(0.6):
-                body += "default: %s " % self.stmt(d - 1)
+                labels.insert(c.below(len(labels) + 1), "default:")
+            body = ""
+            if c.chance(0.15):
+                body += " ".join(self.stmt(d - 1) for _ in range(c.int(1, 2))) + " "
+            i = 0
+            while i < len(labels):
+                run = c.int(1, 3) if c.chance(0.4) else 1
+                body += " ".join(labels[i : i + run]) + " "
+                i += run
+                inner = " ".join(self.stmt(d - 1) for _ in range(c.below(4)))
+                if not inner and i >= len(labels):
+                    inner = ";"
+                if inner:
+                    body += inner + " "
+                if c.chance(0.4):
+                    body += "break; "
             self.sw -= 1
             return "switch (%s) { %s}" % (self.xi(2, M.L_COMMA), body)
         if k == 8:
